@@ -3,8 +3,11 @@ Model of `distance3d/epa.py` (expanding polytope algorithm), core Lean only.
 
 Faithful to the implementation, including what a reader would call its defects:
 
-* the four initial faces `ABC, ACD, ADB, BDC` are built from the simplex rows **as they come**
-  (`Polytope._initialize_from_simplex`); their normals are never re-oriented;
+* `Polytope._initialize_from_simplex` first orients the simplex: if
+  `⟨(B−A)×(C−A), D−A⟩ > 0` the rows are permuted to `(A, C, B, D)`, then the four faces
+  `ABC, ACD, ADB, BDC` are built (`initFaces`; `buildFaces` = the construction from rows as
+  they come).  A flat simplex (`… = 0`) is left as it comes.  Before the upstream repair the
+  rows were never oriented: `initFaces_asIs_before_fix`;
 * `norm_vector` returns the zero vector unchanged;
 * `find_face_closest_to_origin` = first index of the minimum of `⟨v0, n⟩` (`np.argmin`);
 * the convergence test `⟨w, n⟩ − min_dist < epsilon` and `mtv = n · ⟨w, n⟩`;
@@ -12,10 +15,11 @@ Faithful to the implementation, including what a reader would call its defects:
   re-examination, the loose-edge list with its `max_loose_edges` overflow `break` (the remaining
   edges of the triangle are dropped, the triangle is removed anyway);
 * `extend_with_point`: capacity `assert n_faces < max_faces` (→ `assertFail`), the
-  `norm(normal) < 0.5` skip (degenerate new face is silently not added), `fix_ccw_normal_direction`
-  **as is**: the swap goes through numpy views (`temp = faces[i,0]` is a view), so vertex 0 is
-  overwritten by vertex 1 and vertex 1 keeps its value — the face becomes `(b, b, c)` with the
-  negated normal (`fixCcwAsIs`).  `fixCcwFixed` is what the comment says it should do.
+  `norm(normal) < 0.5` skip (degenerate new face is silently not added),
+  `fix_ccw_normal_direction`: vertices 0 and 1 are swapped (through a copy) and the normal is
+  negated (`fixCcw`).  Before the upstream repair the swap went through numpy views
+  (`temp = faces[i,0]` was a view), so vertex 0 was overwritten by vertex 1 and vertex 1 kept
+  its value — the face became `(b, b, c)` with the negated normal: `fixCcw_asIs_before_fix`.
 
 The polytope is the list of the live rows `faces[:n_faces]` in array order (removal =
 overwrite with the last row, new faces appended), so indices agree with the implementation.
@@ -54,9 +58,21 @@ def computeNormal (a b c : V3 α) : V3 α := normVector (V3.cross (b - a) (c - a
 
 def mkFace (a b c : V3 α) : Face α := ⟨a, b, c, computeNormal a b c⟩
 
-/-- `Polytope._initialize_from_simplex` : ABC, ACD, ADB, BDC, as the rows come -/
-def initFaces (s0 s1 s2 s3 : V3 α) : List (Face α) :=
+/-- the four faces ABC, ACD, ADB, BDC of `_initialize_from_simplex`, from rows as they come -/
+def buildFaces (s0 s1 s2 s3 : V3 α) : List (Face α) :=
   [mkFace s0 s1 s2, mkFace s0 s2 s3, mkFace s0 s3 s1, mkFace s1 s3 s2]
+
+/-- the orientation test of `_initialize_from_simplex`:
+`np.dot(np.cross(simplex[1] - simplex[0], simplex[2] - simplex[0]), simplex[3] - simplex[0])` -/
+def simplexOrient (s0 s1 s2 s3 : V3 α) : α := V3.dot (V3.cross (s1 - s0) (s2 - s0)) (s3 - s0)
+
+/-- `Polytope._initialize_from_simplex` : rows 1 and 2 are exchanged when the orientation test is
+`> 0`, then ABC, ACD, ADB, BDC -/
+def initFaces (s0 s1 s2 s3 : V3 α) : List (Face α) :=
+  if 0 < simplexOrient s0 s1 s2 s3 then buildFaces s0 s2 s1 s3 else buildFaces s0 s1 s2 s3
+
+/-- `_initialize_from_simplex` before the upstream repair: the rows were used as they came -/
+def initFaces_asIs_before_fix (s0 s1 s2 s3 : V3 α) : List (Face α) := buildFaces s0 s1 s2 s3
 
 /-- one entry of `dists` in `find_face_closest_to_origin` -/
 def faceDist (f : Face α) : α := V3.dot f.a f.n
@@ -132,15 +148,16 @@ def scan (maxLoose : Nat) (eps : α) (w : V3 α) :
         scan maxLoose eps w fuel i (overwriteWithLast faces i) r.1 (ov || r.2)
       else scan maxLoose eps w fuel (i + 1) faces loose ov
 
-/-- `fix_ccw_normal_direction` as the code executes it (view aliasing: vertex 0 is lost) -/
-def fixCcwAsIs (bias : α) (f : Face α) : Face α :=
-  if V3.dot f.a f.n + bias < 0 then ⟨f.b, f.b, f.c, -f.n⟩ else f
-
-/-- what the docstring describes: swap vertices 0 and 1, negate the normal -/
-def fixCcwFixed (bias : α) (f : Face α) : Face α :=
+/-- `fix_ccw_normal_direction` : swap vertices 0 and 1, negate the normal -/
+def fixCcw (bias : α) (f : Face α) : Face α :=
   if V3.dot f.a f.n + bias < 0 then ⟨f.b, f.a, f.c, -f.n⟩ else f
 
-/-- `Polytope.extend_with_point`; `fix` is one of the two functions above (with the bias applied) -/
+/-- `fix_ccw_normal_direction` as the code executed it before the upstream repair (view
+aliasing: vertex 0 is lost) -/
+def fixCcw_asIs_before_fix (bias : α) (f : Face α) : Face α :=
+  if V3.dot f.a f.n + bias < 0 then ⟨f.b, f.b, f.c, -f.n⟩ else f
+
+/-- `Polytope.extend_with_point`; `fix` is `fixCcw bias` (or its pre-repair version) -/
 def extend (maxFaces : Nat) (fix : Face α → Face α) (w : V3 α) :
     List (Edge α) → List (Face α) → Except Err (List (Face α))
   | [], faces => .ok faces
@@ -212,10 +229,20 @@ def loop (p : Params α) (fix : Face α → Face α) (supp : Nat → V3 α → V
       | .ok (.done mtv) => .ok ⟨some mtv, faces, true, it⟩
       | .ok (.grown faces' _ _ _) => loop p fix supp k (it + 1) faces' (some i)
 
-/-- `epa(simplex, collider1, collider2, …)` -/
-def epa (p : Params α) (fix : Face α → Face α) (supp : Nat → V3 α → V3 α)
+/-- `epa` with the winding repair and the initial-face construction as parameters -/
+def epaWith (p : Params α) (fix : Face α → Face α)
+    (init : V3 α → V3 α → V3 α → V3 α → List (Face α)) (supp : Nat → V3 α → V3 α)
     (s0 s1 s2 s3 : V3 α) : Except Err (Result α) :=
-  loop p fix supp p.maxIter 0 (initFaces s0 s1 s2 s3) none
+  loop p fix supp p.maxIter 0 (init s0 s1 s2 s3) none
+
+/-- `epa(simplex, collider1, collider2, …)` -/
+def epa (p : Params α) (supp : Nat → V3 α → V3 α) (s0 s1 s2 s3 : V3 α) : Except Err (Result α) :=
+  epaWith p (fixCcw p.bias) initFaces supp s0 s1 s2 s3
+
+/-- `epa` before the upstream repair (rows never oriented, swap through views) -/
+def epa_asIs_before_fix (p : Params α) (supp : Nat → V3 α → V3 α) (s0 s1 s2 s3 : V3 α) :
+    Except Err (Result α) :=
+  epaWith p (fixCcw_asIs_before_fix p.bias) initFaces_asIs_before_fix supp s0 s1 s2 s3
 
 /-! ### S3: checker on the returned faces (uses the vertices only, exact at `Rat`) -/
 
